@@ -1143,6 +1143,67 @@ pub fn check_perm(ctx: &mut Ctx, c: &Case) -> R {
 }
 
 // -------------------------------------------------------------------------------------------------
+// re-use of a model object: "whenever fitting reports success … for the given design, weights and offsets" also
+// holds for the second and third `fit` on the same GLM value (after an attempt that ran out of iterations, or
+// after a complete fit): nothing may be lost or carried over between calls
+
+pub fn check_refit(ctx: &mut Ctx, c: &Case) -> R {
+    let sub = "refit";
+    let f = match prelude(ctx, sub, "refit", c)? {
+        Some(f) => f,
+        None => return Ok(()),
+    };
+    if skip_unless_cert(ctx, sub, c, &f) {
+        return Ok(());
+    }
+    let first_iters = [1usize, 2, 3, c.max_iter][(case_hash(c) % 4) as usize];
+    ctx.label(sub, &format!("family={}/first-attempt-max_iter={}", fam_name(c.fam), if first_iters == c.max_iter { "full".to_string() } else { first_iters.to_string() }));
+    let sig = "C06/refit";
+    let res = catch(|| {
+        let mut g = GLM::new(lib_family(c.fam));
+        g.set_penalty(c.alpha).set_tolerance(c.tol);
+        if let Some(w) = &c.w {
+            g.set_weights(w);
+        }
+        if let Some(o) = &c.off {
+            g.set_offset(o);
+        }
+        let first_ok = g.fit(&c.x, &c.y, first_iters).is_ok();
+        let ok = g.fit(&c.x, &c.y, c.max_iter).is_ok();
+        (first_ok, ok, g)
+    });
+    let (first_ok, ok, g) = match res {
+        Ok(v) => v,
+        Err(m) => return fail(format!("{}/panic", sig), format!("{}: fit, then fit again on the same GLM value panicked: {}", describe(c), m)),
+    };
+    ctx.label(sub, if first_ok { "first-attempt=Ok" } else { "first-attempt=Err" });
+    if !ok {
+        ctx.label(sub, "second-fit=Err");
+        return Ok(());
+    }
+    let b2: Vec<f64> = match g.coef() {
+        Ok(b) => b.to_vec(),
+        Err(_) => return fail(sig, format!("{}: second fit returned Ok without coefficients", describe(c))),
+    };
+    ensure!(b2.len() == c.p && b2.iter().all(|b| b.is_finite()), sig, "{}: second fit returned Ok with coefficients {:?}", describe(c), b2);
+    let p = c.p;
+    let at2 = problem(c).at(&b2);
+    let bound = cert_bound(c, &at2, &b2);
+    let (d2, _) = match decrement(&at2, p) {
+        Some(v) => v,
+        None => return fail(sig, format!("{}: information matrix at the coefficients of the second fit {:?} is not positive definite", describe(c), b2)),
+    };
+    ctx.worst("refit/decrement", d2 / bound);
+    ensure!(
+        d2 <= bound,
+        sig,
+        "{}: after a first attempt with max_iter = {} ({}), the second fit on the same GLM value returned {:?}, which does not satisfy the penalised score equations for the given design, weights and offsets: Newton decrement {:.3e} > {:.3e}; a fresh object returns {:?}",
+        describe(c), first_iters, if first_ok { "Ok" } else { "Err" }, b2, d2, bound, f.coef
+    );
+    Ok(())
+}
+
+// -------------------------------------------------------------------------------------------------
 // (viii) non-convergence is an Err
 
 pub fn check_nonconv(ctx: &mut Ctx, c: &Case) -> R {
@@ -1218,6 +1279,8 @@ alpha in {0,0.1,1,10}; tolerance log-uniform [1e-12,1e-9] (70%) or [1e-8,1e-5] (
     let mut s = Spec::new(None, AlphaSet::Any);
     s.x2 = true;
     ctx.run_prop_par("predict", ctx.scale(3000, 96000), th, || strat(s), check_predict);
+    // model object re-use
+    ctx.run_prop_par("refit", ctx.scale(3000, 96000), th, || strat(Spec::new(None, AlphaSet::Any)), check_refit);
     // (vii)
     let mut s = Spec::new(None, AlphaSet::Any);
     s.perm = true;
@@ -1275,6 +1338,7 @@ pub fn replay(ctx: &mut Ctx, sub: &str, v: Value) -> Option<R> {
         "deviance" => Some(check_deviance(ctx, &c)),
         "dispersion" => Some(check_dispersion(ctx, &c)),
         "stderr" => Some(check_stderr(ctx, &c)),
+        "refit" => Some(check_refit(ctx, &c)),
         "predict" => Some(check_predict(ctx, &c)),
         "permutation" => Some(check_perm(ctx, &c)),
         "nonconvergence" => Some(check_nonconv(ctx, &c)),
